@@ -605,6 +605,14 @@ class SchemaValidator:
 
             self.check_valid_name(enum_value.name)
 
+            # `None` is how resolvers return null: a member with that internal
+            # value could never be serialised.
+            if isinstance(enum_value, EnumValue) and enum_value.value is None:
+                self.add_error(
+                    'Enum value "%s.%s" cannot have None as its internal value'
+                    % (enum_type, enum_value.name)
+                )
+
     def validate_input_fields(self, input_object: InputObjectType) -> None:
         if not input_object.fields:
             self.add_error(
